@@ -147,3 +147,32 @@ def replay(ck, em, rec, rng):
                 continue
         ck.sample({"mechanism": "M2", "scenario": scn, "expected": {"labels": exp_l.tolist(), "weights": exp_w.tolist(),
                                                                     "variances": exp_v.tolist()}, "verdict": "ok"})
+    # ---- clusters moved far apart from EACH OTHER: every sample is translated together with its own centroid
+    # (by k * 1e8 for cluster k).  Labels, weights and per-cluster variances are those of the scenario (within-cluster
+    # translation invariance; the nearest centroid stays the own one because the clusters only move apart).
+    if not free.any():
+        ck.replayed += 1
+        ck.seen([rec["data"], rec["cent"], rec["comp"], "clusters apart"])
+        shift = np.zeros_like(cent)
+        shift[:, 0] = np.arange(K) * 1e8
+        Xs = data + shift[exp_l]
+        Cs = cent + shift
+        scn = {"data": rec["data"], "cent": rec["cent"], "comp": rec["comp"], "placement": "cluster k translated by k*1e8"}
+        ms = em.KMeansMachine(K)
+        ms.centroids_ = Cs.copy()
+        if not np.array_equal(np.asarray(ms.predict(Xs)), exp_l):
+            ck.violation("M2:KMeansStats:LabelIsNearest", {"mechanism": "M2", "module": "KMeansStats", "scenario": scn,
+                                                           "detail": "labels %s, expected %s" % (np.asarray(ms.predict(Xs)).tolist(), exp_l.tolist())})
+            return
+        for mode in ("numpy", "dask"):
+            if mode == "numpy":
+                v, w = ms.get_variances_and_weights_for_each_cluster(Xs)
+            else:
+                with dask.config.set(scheduler="synchronous"):
+                    v, w = ms.get_variances_and_weights_for_each_cluster(da.from_array(Xs, chunks=(comp, Xs.shape[1])))
+            v, w = np.asarray(v, dtype=float), np.asarray(w, dtype=float)
+            if not (allclose(w, exp_w) and allclose(v, exp_v, 1e-6) and np.all(v >= -1e-9)):
+                ck.violation("M2:KMeansStats:VarIsBiasedVar", {"mechanism": "M2", "module": "KMeansStats", "scenario": scn,
+                                                               "detail": "%s: variances %s weights %s, expected %s %s"
+                                                               % (mode, v.tolist(), w.tolist(), exp_v.tolist(), exp_w.tolist())})
+                return
